@@ -21,11 +21,34 @@ class CReturn(Exception):
         self.v = v
 
 
+UNIT = [None]      # the translation unit being analysed (set by rules.cside.cu)
+
+
+class Ref:
+    """address of a caller's local passed to a new static helper"""
+    __slots__ = ('env', 'name')
+
+    def __init__(self, env, name):
+        self.env, self.name = env, name
+
+
 class CInterp:
     def __init__(self, model, max_steps=5000):
         self.model = model          # object with call(name, args, interp), field(base, name), glob(name)
         self.max_steps = max_steps
         self.trace = []
+
+    def new_helper(self, name):
+        """a static function that the reference tree does not have (code moved
+        out of the evaluated function): evaluated like the code it came from"""
+        from .inline import known_names
+        from .cfront import C_REL
+        u = UNIT[0]
+        if u is None or not isinstance(name, str) or name not in u.funcs:
+            return None
+        if name in known_names(C_REL):
+            return None
+        return u.funcs[name]
 
     def run(self, func, args):
         g = ccfg(func)
@@ -112,15 +135,33 @@ class CInterp:
             return self.model.field(self.ev(e.a[0], env), e.a[1])
         if k == 'call':
             name = e.a[0]
+            h = self.new_helper(name)
+            if h is not None:
+                args = []
+                for a in e.a[1]:
+                    if a is not None and a.k == 'addr' and a.a[0] is not None \
+                            and a.a[0].k == 'var':
+                        args.append(Ref(env, a.a[0].a[0]))
+                    else:
+                        args.append(self.ev(a, env))
+                return self.run(h, args)
             args = [self.ev(a, env) if a is not None and a.k != 'addr' else a
                     for a in e.a[1]]
             self.trace.append(name if isinstance(name, str) else show(name))
             return self.model.call(name, args, self, env)
+        if k == 'deref':
+            v = self.ev(e.a[0], env)
+            if isinstance(v, Ref):
+                return v.env.get(v.name)
+            raise AnalysisError('unsupported C dereference %s' % show(e))
         if k == 'assign':
             v = self.ev(e.a[2], env)
             t = e.a[1]
             if t.k == 'var':
                 env[t.a[0]] = v
+            elif t.k == 'deref' and isinstance(self.ev(t.a[0], env), Ref):
+                r = self.ev(t.a[0], env)
+                r.env[r.name] = v
             elif t.k == 'field':
                 self.model.setfield(self.ev(t.a[0], env), t.a[1], v)
             else:
